@@ -226,6 +226,8 @@ def check(run):
         # blocks whose content fits but whose bottom padding / border does not (second layout of _in_flow_layout),
         # with break-inside: avoid / orphans / widows around them
         res += fragcheck.frag_stream(run, rng, 1500 if thorough else 300, 'c04padfit', docgen=fraggen.padfit_document)
+        # paragraphs with orphans <> widows before an avoided break (line-box case of find_earlier_page_break)
+        res += fragcheck.frag_stream(run, rng, 900 if thorough else 200, 'c04avoidpara', docgen=fraggen.avoidpara_document)
         mism = [d for d, m in res if m & 1]
         run.oblige('corr:frag2-render(model pages = implementation pages)', not mism,
                    'first disagreements: %s' % [(d['H'], d['html']) for d in mism[:2]])
@@ -244,7 +246,8 @@ def check(run):
         run.count('frag2-render', len(res), keys, samples=[res[0][0]['html'][-400:]] if res else [])
         run.stream_info('frag2-render', forced_boundaries=nforced,
                         rule='fraggen.py with every break-before/after/inside value, orphans/widows 1..4, and padfit documents '
-                             '(content fits, bottom decoration does not, avoid / orphans / widows around); judged: model pages = '
+                             '(content fits, bottom decoration does not, avoid / orphans / widows around), avoidpara documents (a paragraph with '
+                             'orphans <> widows that fits, before an avoided break that overflows); judged: model pages = '
                              'implementation pages; forced boundary => next page (and side); break-inside: avoid boxes that fit and follow '
                              'an allowed break are not split; orphans/widows kept unless the page '
                              'was empty')
